@@ -48,8 +48,14 @@ def one_case(arg):
         commits = G.gen_dag(rng, pool, rng.randint(1, 6), hostile=False)
         # metrics arranged so that several share a witness and others do not
         big = pool.new_blob(7000)
+        # one subdirectory that holds the maxima of several metrics at once (entries, files, links, submodules): the same
+        # description is then cited several times and has to be one footnote
+        shared = G.Tree([G.Entry(G.FILE, b"s%03d" % j, pool.new_blob(1)) for j in range(40)] +
+                        [G.Entry(G.LINK, b"sl%d" % j, pool.new_blob(2)) for j in range(4)] +
+                        [G.Entry(G.GITLINK, b"sm%d" % j, "%040x" % (50 + j)) for j in range(3)])
         t = G.Tree([G.Entry(G.FILE, namegen(rng), big), G.Entry(G.LINK, namegen(rng) + b"l", pool.new_blob(3)),
-                    G.Entry(G.GITLINK, namegen(rng) + b"g", "%040x" % 7), G.Entry(G.TREE, namegen(rng) + b"d", pool.new_tree(max_depth=3))])
+                    G.Entry(G.GITLINK, namegen(rng) + b"g", "%040x" % 7), G.Entry(G.TREE, namegen(rng) + b"d", pool.new_tree(max_depth=3)),
+                    G.Entry(G.TREE, namegen(rng) + b"shared", shared)])
         commits.append(G.Commit(t, commits[-1:], msg=b"x" * rng.choice([10, 3000]) + b"\n"))
         raw_refs = {}
         if idx % 5 == 4:
@@ -70,9 +76,11 @@ def one_case(arg):
             fat = G.Commit(G.Tree([]), [], msg=b"z" * 9000 + b"\n")                                                   # biggest commit
             octo = G.Commit(G.Tree([]), roots_ + [fat], msg=b"octopus\n")                                             # most parents
             commits = roots_ + [fat, octo]
-            raw_refs[b"refs/heads/octo"] = octo
+            raw_refs[b"refs/heads/octo" + (b"/" + b"L" * 140 if prof == "long" else b"")] = octo
         for i in range(rng.randint(1, 5)):
-            raw_refs[hostile_refname(rng)] = rng.choice(commits)
+            # (with the long-name profile the reference names are long too: the description of a root tree, which is cited for
+            # several metrics at once, then exceeds a hundred characters)
+            raw_refs[hostile_refname(rng) + (b"/" + b"L" * 140 if prof == "long" else b"")] = rng.choice(commits)
         tg = G.Tag(commits[-1], name=b"t")
         raw_refs[hostile_refname(rng) + b"tag"] = G.Tag(tg, name=b"t2")
         # refgroup config with hostile symbols / display names
